@@ -35,24 +35,24 @@ CLAIMED = {
 
 # additions of the third session (rules that came out of the seeded campaign, DESIGN.md §2/§10)
 ADD = {
- "C01": ("; cancel discipline, distinct outputs, worker-count clamp (P4 P5 V2) and the classification table (E8)", "Also: no worker cancels the group's context on a non-error path, Split's outputs are distinct iterators, validation leaves at least one worker."),
- "C02": ("; per-element freshness of JSON decode targets (R1); pure-drain rule on the consumer chain of every pipe (T3)", "Also: JSON decoding yields a fresh value per element; the consumer side of every pipe is a pure drain."),
+ "C01": ("; cancel discipline, distinct outputs, worker-count clamp (P4 P5 V2 P6), hand-off primitives never report a non-event as success (X5b X1b), and the classification table (E8)", "Also: no worker cancels the group's context on a non-error path, Split's outputs are distinct iterators, validation leaves at least one worker."),
+ "C02": ("; per-element freshness of JSON decode targets (R1); pure-drain rule on the consumer chain of every pipe (T3); X5b X1b T1c", "Also: JSON decoding yields a fresh value per element; the consumer side of every pipe is a pure drain."),
  "C03": ("; who-may-use rule for the group's ErrorHandler (F9)", "Also: the group's error handler is invoked only by the classification."),
  "C04": ("; condition-variable protocol of fun.WaitGroup incl. check-under-lock (W1-W8, L4); classification row 'context error stops the worker' (E8)", "Also: the WaitGroup.Wait that gates every pipe's close cannot miss the last Done; a context error always stops a worker."),
- "C05": ("; closed-only-when-empty, ok-flag discipline, check-under-lock (W9 D9v W8)", "Also: a consumer-side wait reports closed only when there is nothing to take; an internal (value, ok) result is never used with ok dropped."),
- "C06": ("; W9 D9v; constant-capacity tracker rule (X7)", "Also: closed only when empty, ok-flag discipline, a fixed Capacity is served by a tracker whose bound never changes."),
+ "C05": ("; closed-only-when-empty, ok-flag discipline, check-under-lock (W9 D9v W8); tail/link maintenance and popFront precondition (D10 D11 D5p)", "Also: a consumer-side wait reports closed only when there is nothing to take; an internal (value, ok) result is never used with ok dropped."),
+ "C06": ("; W9 D9v; constant-capacity tracker rule (X7); end roles of the Front/Back methods (X10)", "Also: closed only when empty, ok-flag discipline, a fixed Capacity is served by a tracker whose bound never changes."),
  "C07": ("; W8 check-before-park under the lock on all paths", ""),
- "C08": ("; who-may-receive rule (K4), ok-flag discipline (D9v), G1 through local closures", "Also: the broker never receives from a subscriber's channel; the distributor's receive side never yields a value whose ok flag was dropped."),
+ "C08": ("; who-may-receive rule (K4), channel roles and lossless send shape (K6 K7), ok-flag discipline (D9v), G1 through local closures", "Also: the broker never receives from a subscriber's channel; the distributor's receive side never yields a value whose ok flag was dropped."),
  "C09": ("; guarded-shutdown rule for the event loop (K5)", "Also: the event loop closes the broker only on ErrQueueClosed/io.EOF."),
  "C10": ("; deferred-phase rule S2b; W8 for Service.Wait's wait group", "Also: every phase after Run is a deferred action (the panic path equals the normal path)."),
  "C11": ("; must-await rule for services started under Run's own context (O4); resolved-callee form of O2 with the job-error clause", "Also: a Run that starts member services awaits them before returning, registering their Wait on every path; a cleanup job's error goes to the service's own collector."),
- "C12": ("; node-store and coupled-update rules for ers.Stack (D1s D3s)", "Also: a Stack head changes only through the push primitive."),
+ "C12": ("; node-store and coupled-update rules for ers.Stack (D1s D3s); agreement with the errors package protocol (X9)", "Also: a Stack head changes only through the push primitive."),
  "C13": ("; shared-local rule for goroutine-captured variables (L6)", "Also: locals shared between goroutines are of concurrency-safe types."),
- "C14": ("; W8 check-before-park under the lock", "Also: the counter is read under the lock before the first park."),
- "C16": ("; must-dataflow for sentinel-free value reads (Q1), who-may-write/return rules for values, ok flags and the root (Q3 Q4 D9), element-identity rules for the sorts (Q6 Q7)", "Also: no traversal reads the sentinel's value, the root is never handed out, values are written only by the node's own methods, sorting re-links the same elements."),
+ "C14": ("; W8 check-before-park under the lock; V3 constant deltas of Done/Inc", "Also: the counter is read under the lock before the first park."),
+ "C16": ("; must-dataflow for sentinel-free value reads (Q1), who-may-write/return rules for values, ok flags and the root (Q3 Q4 D9), element-identity rules for the sorts (Q6 Q7), end roles and Stack.Pop coupling (X10 D3k)", "Also: no traversal reads the sentinel's value, the root is never handed out, values are written only by the node's own methods, sorting re-links the same elements."),
  "C17": ("; must-dataflow Q1, affine cursor abstraction of IsSorted (Q2), stable-sort shape (Q6), element identity (Q7), heap who-may-insert (Q5)", "Now also: IsSorted compares exactly the adjacent pairs in the right orientation and never the sentinel; SortQuick's order and stability come from one sort.SliceStable with less = lt(e[i], e[j]); sorts re-link the same elements; every heap insertion goes through Push."),
- "C18": ("; must-pass-through rule for Set.Sort* (D6c), element identity of the list sorts (Q7 Q3)", "Also: sorting a set makes it ordered on every path; the list sorts keep the elements the index points at."),
- "C19": ("; widen-after-shift rule (H5), no-alias rule for Export (H6)", "Also: bucket arithmetic is shifted at 64 bits; Export copies the counts."),
+ "C18": ("; must-pass-through rule for Set.Sort* (D6c), size-first Equal, insert-once / un-index rules (D6d D6e), element identity of the list sorts (Q7 Q3)", "Also: sorting a set makes it ordered on every path; the list sorts keep the elements the index points at."),
+ "C19": ("; widen-after-shift rule (H5), no-alias rule for Export (H6), same-delta and field-coverage rules (H1b H2)", "Also: bucket arithmetic is shifted at 64 bits; Export copies the counts."),
 }
 
 NA_REASON = {}
